@@ -25,6 +25,7 @@ import (
 	"github.com/go-text/typesetting/di"
 	"github.com/go-text/typesetting/font"
 	ot "github.com/go-text/typesetting/font/opentype"
+	"github.com/go-text/typesetting/harfbuzz"
 	"github.com/go-text/typesetting/language"
 	"github.com/go-text/typesetting/shaping"
 	"golang.org/x/image/math/fixed"
@@ -37,6 +38,18 @@ type input struct {
 	RunEnd   int    `json:"run_end"`
 	Dir      int    `json:"dir"`
 	Script   string `json:"script"`
+	// harfbuzz.Buffer level (second API level of the property): ranged features, buffer flags, cluster level
+	HB       bool     `json:"hb,omitempty"`
+	Features []hbFeat `json:"features,omitempty"`
+	Flags    uint16   `json:"flags,omitempty"`
+	Level    uint8    `json:"level,omitempty"`
+}
+
+type hbFeat struct {
+	Tag   string `json:"tag"`
+	Value uint32 `json:"value"`
+	Start int    `json:"start"`
+	End   int    `json:"end"`
 }
 
 type fontRef struct {
@@ -53,7 +66,7 @@ func listFonts() []fontRef {
 				return nil
 			}
 			l := strings.ToLower(p)
-			if strings.HasSuffix(l, ".ttf") || strings.HasSuffix(l, ".otf") {
+			if strings.HasSuffix(l, ".ttf") || strings.HasSuffix(l, ".otf") || strings.HasSuffix(l, ".dfont") || strings.HasSuffix(l, ".ttc") {
 				out = append(out, fontRef{f, name, p})
 			}
 			return nil
@@ -194,8 +207,12 @@ func shapeOnce(face *font.Face, in input) (res result) {
 			}
 			done <- r
 		}()
-		var sh shaping.HarfbuzzShaper
 		sc, _ := language.ParseScript(in.Script)
+		if in.HB {
+			r.glyphs, r.kind, r.fail = shapeHB(face, in, sc)
+			return
+		}
+		var sh shaping.HarfbuzzShaper
 		out := sh.Shape(shaping.Input{Text: in.Text, RunStart: in.RunStart, RunEnd: in.RunEnd, Direction: di.Direction(in.Dir),
 			Face: face, Size: fixed.I(12), Script: sc, Language: "en"})
 		r.glyphs = len(out.Glyphs)
@@ -215,6 +232,46 @@ func shapeOnce(face *font.Face, in input) (res result) {
 	case <-time.After(10 * time.Second):
 		return result{fail: "shaping did not return within 10 s", kind: "timeout"}
 	}
+}
+
+// shapeHB shapes at the harfbuzz.Buffer level with ranged features, buffer flags and a cluster level, and checks the
+// statement of C01 on the buffer: Info and Pos of equal length, clusters inside the run and (for the monotone cluster
+// levels) monotone in the buffer's direction, output size within the growth budget.
+func shapeHB(face *font.Face, in input, sc language.Script) (glyphs int, kind, fail string) {
+	buf := harfbuzz.NewBuffer()
+	buf.ClusterLevel = harfbuzz.ClusterLevel(in.Level % 3)
+	buf.Flags = harfbuzz.ShappingOptions(in.Flags)
+	buf.Props.Direction = di.Direction(in.Dir).Harfbuzz()
+	buf.Props.Script = sc
+	buf.Props.Language = language.NewLanguage("en")
+	buf.AddRunes(in.Text, in.RunStart, in.RunEnd-in.RunStart)
+	var feats []harfbuzz.Feature
+	for _, f := range in.Features {
+		feats = append(feats, harfbuzz.Feature{Tag: ot.MustNewTag(f.Tag), Value: f.Value, Start: f.Start, End: f.End})
+	}
+	hbFont := harfbuzz.NewFont(face)
+	buf.Shape(hbFont, feats)
+	n := in.RunEnd - in.RunStart
+	if len(buf.Info) != len(buf.Pos) {
+		return len(buf.Info), "c01:hb-lengths", fmt.Sprintf("hb-lengths: len(Info)=%d len(Pos)=%d", len(buf.Info), len(buf.Pos))
+	}
+	if limit := 2 * (1024*n + 16384); len(buf.Info) > limit {
+		return len(buf.Info), "c01:hb-size", fmt.Sprintf("hb-size: %d glyphs for %d runes", len(buf.Info), n)
+	}
+	backward := buf.Props.Direction == harfbuzz.RightToLeft || buf.Props.Direction == harfbuzz.BottomToTop
+	prev := -1
+	for i, g := range buf.Info {
+		if g.Cluster < in.RunStart || g.Cluster >= in.RunEnd {
+			return len(buf.Info), "c01:hb-range", fmt.Sprintf("hb-range: glyph %d has cluster %d outside [%d,%d)", i, g.Cluster, in.RunStart, in.RunEnd)
+		}
+		if buf.ClusterLevel != harfbuzz.Characters && i > 0 {
+			if (backward && g.Cluster > prev) || (!backward && g.Cluster < prev) {
+				return len(buf.Info), "c01:hb-monotone", fmt.Sprintf("hb-monotone: clusters %d then %d", prev, g.Cluster)
+			}
+		}
+		prev = g.Cluster
+	}
+	return len(buf.Info), "", ""
 }
 
 // spliceGPOS returns the font `data` with the GPOS (and GDEF) tables of Roboto added: an AAT font that also has
@@ -279,6 +336,12 @@ func main() {
 		var face *font.Face
 		func() {
 			defer func() { recover() }()
+			if l := strings.ToLower(ref.path); strings.HasSuffix(l, ".dfont") || strings.HasSuffix(l, ".ttc") {
+				if faces, err := font.ParseTTC(bytes.NewReader(b)); err == nil && len(faces) > 0 {
+					face = faces[0]
+				}
+				return
+			}
 			face, _ = font.ParseTTF(bytes.NewReader(b))
 		}()
 		return face
@@ -355,6 +418,40 @@ func main() {
 			}
 		}
 	}
+	// deterministic scope for the AAT fonts: every prefix and suffix range of a ligature / contextual feature over short
+	// Latin texts at the harfbuzz.Buffer level (per-range enabling of morx subtables, ranges ending before the text end)
+	for _, ref := range fonts {
+		aat := strings.Contains(ref.path, "morx/") || strings.HasSuffix(strings.ToLower(ref.path), ".dfont")
+		if !aat || strings.HasSuffix(ref.path, "+GPOS") {
+			continue
+		}
+		face := load(ref)
+		if face == nil {
+			continue
+		}
+		for _, txt := range []string{"office", "fi A", "ab"} {
+			text := []rune(txt)
+			for _, tag := range []string{"liga", "calt"} {
+				for k := 1; k <= len(text); k++ {
+					for _, rg := range [][2]int{{0, k}, {k - 1, len(text)}} {
+						in := input{Font: ref.name + ":" + ref.path, Text: text, RunStart: 0, RunEnd: len(text), Dir: 0, Script: "Latn",
+							HB: true, Features: []hbFeat{{Tag: tag, Value: 1, Start: rg[0], End: rg[1]}}}
+						res := shapeOnce(face, in)
+						evals++
+						hist["aat-ranges"]++
+						if res.fail != "" {
+							hist["fail:"+res.kind]++
+							key := res.kind + "|" + in.Font
+							if !reported[key] && len(reported) < 40 {
+								reported[key] = true
+								enc.Encode(map[string]any{"fail": res.fail, "kind": res.kind, "what": res.fail, "input": in})
+							}
+						}
+					}
+				}
+			}
+		}
+	}
 	for fi, ref := range chosen {
 		face := load(ref)
 		if face == nil {
@@ -368,6 +465,10 @@ func main() {
 				break
 			}
 			script := scriptOrder[r.Intn(len(scriptOrder))]
+			aat := strings.Contains(ref.path, "morx/") || strings.HasSuffix(strings.ToLower(ref.path), ".dfont")
+			if aat && r.Intn(10) < 6 {
+				script = "Latn" // AAT sample fonts mostly have Latin state tables (ligatures, contextual forms)
+			}
 			text := genText(r, script)
 			L := len(text)
 			s, e := 0, L
@@ -380,6 +481,26 @@ func main() {
 				dir |= 4 | 8 // sideways
 			}
 			in := input{Font: ref.name + ":" + ref.path, Text: text, RunStart: s, RunEnd: e, Dir: dir, Script: script}
+			if (ti%3 == 2 || (aat && ti%3 == 1)) && e > s { // harfbuzz.Buffer level: ranged and global features, flags, cluster levels
+				in.HB = true
+				in.Dir &= 3
+				in.Flags = uint16(r.Intn(4))
+				in.Level = uint8(r.Intn(3))
+				tags := []string{"liga", "kern", "smcp", "dlig", "calt", "frac", "ccmp", "rlig", "onum"}
+				nf := r.Intn(3)
+				if aat {
+					nf = 1 + r.Intn(2) // feature ranges drive the per-range enabling of morx subtables
+					tags = []string{"liga", "dlig", "smcp", "calt", "kern"}
+				}
+				for k := nf; k > 0; k-- {
+					f := hbFeat{Tag: tags[r.Intn(len(tags))], Value: uint32(r.Intn(2)), Start: 0, End: -1}
+					if r.Intn(2) == 0 { // a range inside the run, often ending before its end
+						f.Start = s + r.Intn(e-s)
+						f.End = f.Start + 1 + r.Intn(e-f.Start)
+					}
+					in.Features = append(in.Features, f)
+				}
+			}
 			res := shapeOnce(face, in)
 			evals++
 			hist["dir="+fmt.Sprint(dir)]++
